@@ -3,6 +3,7 @@
 //! a preemption bound) in a child process; the parent aggregates.
 
 pub mod cellq;
+pub mod pool;
 pub mod task;
 
 use std::collections::BTreeSet;
@@ -46,6 +47,7 @@ impl Item {
 
 fn items(prop: &str) -> Option<Vec<Item>> {
     Some(match prop {
+        "C04" => pool::c04(),
         "C05" => task::c05(),
         "C12" => cellq::c12(),
         "C13" => task::c13(),
